@@ -233,6 +233,15 @@ def showResult (r : Result Float) : String :=
     String.join (r.dbl.map fun p => " " ++ showObsD p.1 p.2) ++
     String.join (r.int.map fun p => " " ++ showObsI p.1 p.2)
 
+/-- executable form of the hypotheses `TablesOK` of the independence theorem
+(`Props/C12.lean: inactive_independence`): no keyword is called `__MULT__…`, every double keyword is
+declared once, ACTNUM is an integer keyword with default 1.  Evaluated on the tables the harness reads
+from the real `keyword_info` on EVERY case; a violation makes the case answer `bad-tables`. -/
+def tablesOkB {α : Type} (T : Tables α) : Bool :=
+  T.dbl.all (fun e => e.1.toList.take 8 != "__MULT__".toList) &&
+  decide ((T.dbl.map (·.1)).Nodup) &&
+  decide (sget T.int "ACTNUM" = some (some 1))
+
 def runCase (m : Mode) (args : List String) : String :=
   match args with
   | nx :: ny :: nz :: act :: rest =>
@@ -241,6 +250,7 @@ def runCase (m : Mode) (args : List String) : String :=
     match parseDecls rest ⟨[], []⟩ with
     | none => "bad-op"
     | some (T, r) =>
+      if !tablesOkB T then "bad-tables" else
       match parseSections r ⟨[], [], [], [], []⟩ with
       | none => "bad-op"
       | some P =>
